@@ -11,7 +11,7 @@ T=$(PYTHONPATH=$WT/src /venv/bin/python -m pytest -q -p no:cacheprovider -x 2>&1
 PYTHONPATH=$WT/src /venv/bin/python "$OUT/demo_$K.py" >/dev/null 2>&1; D1=$?
 RES=""
 for c in $CHECKS; do
-  o=$(cd /verif && RTFLITE_SRC=$WT/src VERIF_NOEVIDENCE=1 timeout 3000 ./check "$c" --tier quick 2>&1); rc=$?
+  o=$(cd "${VDIR:-/verif}" && RTFLITE_SRC=$WT/src VERIF_NOEVIDENCE=1 timeout 3000 ./check "$c" --tier quick 2>&1); rc=$?
   first=$(printf '%s\n' "$o" | grep -A1 '^VIOLATION' | sed -n 2p | cut -c1-160)
   RES="$RES [$c rc=$rc $first]"
 done
